@@ -348,6 +348,21 @@ class Evaluator:
                     d.sites[k.v] = getattr(src, 'sites', {}).get(
                         k.v, (module, node.lineno))
         else:
+            # an iterable of (key, value) pairs: a list/generator of 2-tuples,
+            # zip(keys, values), ...
+            pairs = self.iterate(src)
+            kvs = [self.iterate(p_) for p_ in pairs] if pairs is not None \
+                else None
+            if kvs is not None and all(kv is not None and len(kv) == 2
+                                       for kv in kvs):
+                for k, v in kvs:
+                    if v.site is None:
+                        v.site = (module, node.lineno)
+                    d.set(k, v)
+                    if isinstance(k, Const):
+                        d.sites = getattr(d, 'sites', {})
+                        d.sites[k.v] = (module, node.lineno)
+                return
             d.items.append((Unknown('update key'),
                             Unknown('update from %r at %s:%d' % (
                                 src, module.rel, node.lineno))))
